@@ -460,6 +460,15 @@ where for<'a> &'a R: EucRingOps<R> {
         };
         s.count("outcome.ok");
         let d = &out.d;
+        // the oracle computes with the ring's own arithmetic: over machine integers an intermediate product may
+        // overflow although all outputs are fine; such a check is skipped (counted), never reported
+        macro_rules! ck { ($cond:expr, $clause:expr, $detail:expr) => {
+            match guard(|| $cond) {
+                Some(ok) => s.oracle(ok, $clause, &inp, &$detail),
+                None if R::MACHINE => s.count(&format!("oracle.overflow.{}", R::TAG)),
+                None => s.oracle(false, concat!("(the ring's own arithmetic panicked while evaluating) ", $clause), &inp, "panic"),
+            }
+        } }
         // presence / sizes
         let pres_ok = (0..4).all(|i| out.t[i].is_some() == f[i])
             && out.t[0].iter().chain(out.t[1].iter()).all(|x| x.m == m && x.n == m)
@@ -474,15 +483,15 @@ where for<'a> &'a R: EucRingOps<R> {
         let rk = dg.iter().position(|x| x.is_zero()).unwrap_or(k);
         s.oracle(dg[rk..].iter().all(|x| x.is_zero()), "non-zero diagonal entries come first", &inp, &m_txt(d));
         s.oracle(dg[..rk].iter().all(|x| x.normalizing_unit().is_one()), "non-zero diagonal entries are normalised", &inp, &m_txt(d));
-        s.oracle((1..rk).all(|i| divides_w(&dg[i - 1], &dg[i])), "each diagonal entry divides the next", &inp, &m_txt(d));
+        ck!((1..rk).all(|i| divides_w(&dg[i - 1], &dg[i])), "each diagonal entry divides the next", m_txt(d));
         // transforms
         let [p, pi, q, qi] = &out.t;
-        if let (Some(p), Some(q)) = (p, q) { s.oracle(meq(&mm(&mm(p, a), q), d), "D = P·A·Q", &inp, &format!("D={} P={} Q={}", m_txt(d), m_txt(p), m_txt(q))); }
-        if let (Some(p), Some(pi)) = (p, pi) { s.oracle(is_id(&mm(p, pi)) && is_id(&mm(pi, p)), "P·P⁻¹ = I", &inp, &format!("P={} Pinv={}", m_txt(p), m_txt(pi))); }
-        if let (Some(q), Some(qi)) = (q, qi) { s.oracle(is_id(&mm(q, qi)) && is_id(&mm(qi, q)), "Q·Q⁻¹ = I", &inp, &format!("Q={} Qinv={}", m_txt(q), m_txt(qi))); }
-        if let (Some(pi), Some(qi)) = (pi, qi) { s.oracle(meq(&mm(&mm(pi, d), qi), a), "A = P⁻¹·D·Q⁻¹", &inp, &format!("D={} Pinv={} Qinv={}", m_txt(d), m_txt(pi), m_txt(qi))); }
-        if let (Some(p), Some(qi)) = (p, qi) { s.oracle(meq(&mm(p, a), &mm(d, qi)), "P·A = D·Q⁻¹", &inp, &format!("D={} P={} Qinv={}", m_txt(d), m_txt(p), m_txt(qi))); }
-        if let (Some(pi), Some(q)) = (pi, q) { s.oracle(meq(&mm(a, q), &mm(pi, d)), "A·Q = P⁻¹·D", &inp, &format!("D={} Pinv={} Q={}", m_txt(d), m_txt(pi), m_txt(q))); }
+        if let (Some(p), Some(q)) = (p, q) { ck!(meq(&mm(&mm(p, a), q), d), "D = P·A·Q", format!("D={} P={} Q={}", m_txt(d), m_txt(p), m_txt(q))); }
+        if let (Some(p), Some(pi)) = (p, pi) { ck!(is_id(&mm(p, pi)) && is_id(&mm(pi, p)), "P·P⁻¹ = I", format!("P={} Pinv={}", m_txt(p), m_txt(pi))); }
+        if let (Some(q), Some(qi)) = (q, qi) { ck!(is_id(&mm(q, qi)) && is_id(&mm(qi, q)), "Q·Q⁻¹ = I", format!("Q={} Qinv={}", m_txt(q), m_txt(qi))); }
+        if let (Some(pi), Some(qi)) = (pi, qi) { ck!(meq(&mm(&mm(pi, d), qi), a), "A = P⁻¹·D·Q⁻¹", format!("D={} Pinv={} Qinv={}", m_txt(d), m_txt(pi), m_txt(qi))); }
+        if let (Some(p), Some(qi)) = (p, qi) { ck!(meq(&mm(p, a), &mm(d, qi)), "P·A = D·Q⁻¹", format!("D={} P={} Qinv={}", m_txt(d), m_txt(p), m_txt(qi))); }
+        if let (Some(pi), Some(q)) = (pi, q) { ck!(meq(&mm(a, q), &mm(pi, d)), "A·Q = P⁻¹·D", format!("D={} Pinv={} Q={}", m_txt(d), m_txt(pi), m_txt(q))); }
         // the diagonal is unique: same D for every flag subset
         match &d_full {
             None => d_full = Some(d.clone()),
